@@ -13,8 +13,10 @@ relational counterpart, with the same shape as `Sem.lean`:
 * the macro-step rule re-proved for `CSReach` (`cs_reach_of_macro_inv`, `cs_reach_runs_into_inv`) — the proofs do not depend on the
   legality predicate;
 * `cs_reach_decomp`: every reachable configuration is an invariant one, or lies on the deterministic run of the operator that
-  follows one environment move made from an invariant configuration (used to state facts about configurations in which the
-  operator has control, e.g. "whenever `share` is about to send `Terminate` upstream, that upstream is live").
+  follows one environment move made from an invariant configuration; `cs_reach_inv_of_envTurn`: a reachable configuration in which
+  the environment has control IS an invariant one; `cs_reach_waitBelow`: below the top of the stack there are only `wait` frames
+  (used to prove facts about configurations in which the OPERATOR has control by plain induction on reachability, e.g. "whenever
+  `share` is about to send `Terminate` upstream, that upstream is live").
 -/
 namespace Cb
 
@@ -234,6 +236,53 @@ theorem cs_reach_decomp (M : Machine St Loc α β) (R : Restr St Loc α β) (Inv
           exact hn
       exact Or.inr ⟨a, m', b, 0, hia, h, hr', rfl⟩
 
+/-- a reachable configuration in which the environment has control is an invariant one -/
+theorem cs_reach_inv_of_envTurn (M : Machine St Loc α β) (R : Restr St Loc α β) (Inv : Sys St Loc α β → Prop)
+    (hinit : Inv (Sys.init M)) (hturn : ∀ s, Inv s → EnvTurn s)
+    (hstep : ∀ s s' m, Inv s → EnvStepCS M m s s' → R s m → ∃ n, Inv (advance M n s')) :
+    ∀ s, CSReachR M R s → EnvTurn s → Inv s := by
+  intro s hs ht
+  obtain ⟨n, hn⟩ := cs_reach_runs_into_inv M R Inv hinit hturn hstep s hs
+  rwa [advance_of_envTurn ht] at hn
+
+/-- at every reachable configuration all frames below the top of the stack are `wait` frames -/
+theorem cs_reach_waitBelow (M : Machine St Loc α β) (R : Restr St Loc α β) :
+    ∀ s, CSReachR M R s → ∀ f ∈ s.stack.tail, ∃ o l, f = Frame.wait o l := by
+  intro s hs
+  induction hs with
+  | init => intro f hf; simp [Sys.init] at hf
+  | @step a b ha hab ih =>
+    cases hab with
+    | op h =>
+      unfold opStep at h
+      split at h
+      · cases h
+      · split at h
+        · rename_i l stk heq
+          rw [heq] at ih
+          simp only [List.tail_cons] at ih
+          split at h
+          all_goals (simp only [Option.some.injEq] at h; subst h)
+          · exact ih
+          · exact ih
+          · exact fun f hf => ih f (List.mem_of_mem_tail hf)
+          · exact fun f hf => ih f (List.mem_of_mem_tail hf)
+        · cases h
+    | env h _ =>
+      cases h with
+      | @call st stk g tr c i hc hl =>
+        simp only [List.tail_cons] at ih ⊢
+        intro f hf
+        cases stk with
+        | nil => cases hf
+        | cons f0 r =>
+          rcases List.mem_cons.1 hf with rfl | hf
+          · cases f with
+            | run l => simp [ctxOf] at hc
+            | wait o l => exact ⟨o, l, rfl⟩
+          · exact ih f hf
+      | ret hl => exact ih
+
 end Cb
 
 #print axioms Cb.cs_reach_of_macro_inv
@@ -241,3 +290,5 @@ end Cb
 #print axioms Cb.cs_reach_decomp
 #print axioms Cb.envMoveCS_iff
 #print axioms Cb.CSReach.of_sreach
+#print axioms Cb.cs_reach_inv_of_envTurn
+#print axioms Cb.cs_reach_waitBelow
